@@ -38,9 +38,10 @@ theorem eval_sumForms (x : Ix → K) (l : List (LinForm K)) :
 /-! ### which components the nodal formulation can express -/
 
 /-- the formulation is defined for the component: a one-port R, Y, C, L, V, I with two
-    different nodes; an inductor has no mutual coupling and a finite admittance 1/(sL) -/
+    different nodes; a resistor has a finite admittance 1/R (R ≠ 0: the code prints `zoo` for a 0-ohm resistor), an
+    inductor has no mutual coupling and a finite admittance 1/(sL) -/
 def OkCpt (kind : Kind) (s : K) : Cpt K → Prop
-  | .R a b _ => a ≠ b
+  | .R a b r => a ≠ b ∧ r ≠ 0
   | .Y a b _ => a ≠ b
   | .Cap a b _ _ => a ≠ b
   | .Ind a b _ l _ coup => a ≠ b ∧ coup = [] ∧ indZ kind s l ≠ 0
@@ -66,6 +67,7 @@ theorem kclTerm_patched (kind : Kind) (s : K) (x : Ix → K) (k : Nat) (c : Cpt 
   cases c with
   | R a b r =>
     simp [OkCpt] at hok
+    obtain ⟨hok, _⟩ := hok
     simp [incident, nodes2] at hinc
     rcases hinc with rfl | rfl
     · simp [kclTerm, nodes2, curEq, isI, LinForm.eval, lsum, outflow, twoTerm, vd, hok, Ne.symm hok]; ring
